@@ -252,7 +252,7 @@ func copyRegularFile(src, dst string, perm os.FileMode) error {
 
 	dstFile, err := os.OpenFile(dst, os.O_RDWR|os.O_CREATE|os.O_TRUNC, perm)
 	if os.IsNotExist(err) {
-		return NewHTTPError(http.StatusConflict, err)
+		return NewHTTPError(http.StatusConflict, errFromOS(err))
 	} else if err != nil {
 		return errFromOS(err)
 	}
